@@ -33,6 +33,10 @@ pub fn n_direct_write_variants(code: Code) -> usize {
     write_variants(code, 0).iter().filter(|o| !matches!(o, crate::wr::WOp::Disp { .. })).count()
 }
 
+pub fn run_streams_pub(cfgs: Vec<StreamCfg>, items: std::sync::Arc<Vec<Item>>, ctx: &Ctx, keep: &'static [&'static str]) -> Outcome {
+    run_streams(cfgs, items, ctx, keep)
+}
+
 fn run_streams(cfgs: Vec<StreamCfg>, items: std::sync::Arc<Vec<Item>>, ctx: &Ctx, keep: &'static [&'static str]) -> Outcome {
     let mut tasks: Vec<Task> = vec![];
     for cfg in cfgs {
@@ -167,4 +171,136 @@ pub fn c04(ctx: &Ctx) -> (CheckMeta, Outcome) {
         assumptions: vec!["reference encoder is an independent transcription of the module documentation".into()],
     };
     (meta, out)
+}
+
+/// every library length function for the code (name, value)
+pub fn lib_lens(code: Code, v: u64) -> Vec<(String, usize)> {
+    use dsi_bitstream::prelude::*;
+    let mut o: Vec<(String, usize)> = vec![("direct".into(), crate::disp::direct_len(code, v))];
+    match code {
+        Code::Gamma => {
+            o.push(("len_gamma_param<false>".into(), len_gamma_param::<false>(v)));
+            o.push(("len_gamma_param<true>".into(), len_gamma_param::<true>(v)));
+        }
+        Code::Delta => {
+            o.push(("len_delta_param<false,false>".into(), len_delta_param::<false, false>(v)));
+            o.push(("len_delta_param<false,true>".into(), len_delta_param::<false, true>(v)));
+            o.push(("len_delta_param<true,false>".into(), len_delta_param::<true, false>(v)));
+            o.push(("len_delta_param<true,true>".into(), len_delta_param::<true, true>(v)));
+        }
+        Code::Zeta(k) => {
+            o.push(("len_zeta_param<false>".into(), len_zeta_param::<false>(v, k as usize)));
+            o.push(("len_zeta_param<true>".into(), len_zeta_param::<true>(v, k as usize)));
+        }
+        Code::VByteBe | Code::VByteLe => {
+            o.push(("8*byte_len_vbyte".into(), 8 * byte_len_vbyte(v)));
+        }
+        _ => {}
+    }
+    for kind in 0..crate::disp::LKINDS.len() as u8 {
+        if let Some(l) = crate::disp::disp_len(kind, code, v) {
+            o.push((crate::disp::LKINDS[kind as usize].to_string(), l));
+        }
+    }
+    o
+}
+
+pub fn c06(ctx: &Ctx) -> (CheckMeta, Outcome) {
+    // (1) pure grid over every length function
+    let all = all_codes(ctx.seed);
+    let core = core_codes();
+    let dense: u64 = if ctx.thorough { 1 << 20 } else { 1 << 16 };
+    let mut tasks: Vec<Task> = vec![];
+    for chunk in all.chunks(8) {
+        let chunk: Vec<Code> = chunk.to_vec();
+        let core = core.clone();
+        let seed = ctx.seed;
+        tasks.push(Box::new(move || {
+            let mut out = Outcome::new();
+            for code in chunk {
+                let mut vals = boundary_values_raw(code, seed, 16);
+                let d = if core.contains(&code) { dense } else { 1 << 10 };
+                for v in 0..d.min(code.max_value().saturating_add(1)) {
+                    vals.insert(v);
+                }
+                let mut prev: Option<u128> = None;
+                for v in vals {
+                    let r = ref_len(code, v);
+                    let step = prev.map(|p| p != r).unwrap_or(true);
+                    prev = Some(r);
+                    let lens = std::panic::catch_unwind(|| lib_lens(code, v));
+                    out.cov.evaluations += 1;
+                    if step || v > (1 << 32) {
+                        out.cov.nontrivial += 1;
+                    }
+                    let bad: Option<(String, String, &str)> = match lens {
+                        Err(p) => Some(("len".into(), format!("length function panicked: {}", crate::util::panic_msg(&p)), "panic")),
+                        Ok(ls) => ls.iter().find(|(_, l)| *l as u128 != r).map(|(n, l)| (n.clone(), format!("{} = {} but the codeword has {} bits", n, l, r), "length")),
+                    };
+                    if let Some((name, detail, sym)) = bad {
+                        out.violations.push(crate::report::Violation {
+                            property: "C06".into(),
+                            system: "len-fn".into(),
+                            config: name,
+                            op_class: format!("len:{}", code.family()),
+                            symptom: sym.into(),
+                            detail: format!("{:?} value {}: {}", code, v, detail),
+                            replay: serde_json::json!({"kind": "len", "code": code, "v": v}),
+                        });
+                    }
+                }
+                if out.cov.samples.len() < 2 {
+                    out.cov.sample(serde_json::json!({"code": code, "value": 1000, "lengths": lib_lens(code, 1000.min(code.max_value())), "reference": ref_len(code, 1000.min(code.max_value())) as u64}));
+                }
+            }
+            out
+        }));
+    }
+    let mut out = run_all(tasks, threads());
+    // (2) streams: write return, growth of the stream and bits consumed by the read
+    let mut cfgs = vec![];
+    for e in End::BOTH {
+        for w in WBITS {
+            for o in [0usize, 5] {
+                cfgs.push(StreamCfg { e, wbits: w, offset: o, readers: vec![("buf32", "memzx"), ("buf16", "memstrict"), ("unbuf", "memzx")], with_disp: false, all_read_variants: true });
+            }
+        }
+    }
+    let (dc, dr) = if ctx.thorough { (16384, 128) } else { (1024, 16) };
+    let items = std::sync::Arc::new(items_for(&all, dc, dr, ctx.seed, 4, true));
+    let mut o2 = run_streams(cfgs, items, ctx, &["C06", "C03"]);
+    o2.violations.retain(|v| v.property == "C06" || v.symptom == "position");
+    for v in o2.violations.iter_mut() {
+        v.property = "C06".into();
+    }
+    out.merge(o2);
+    let meta = CheckMeta {
+        property: "C06",
+        level: "exploration",
+        rule: "bounded-exhaustive: (1) every library length function (len_*, len_*_param with tables on/off, byte_len_vbyte, Codes::len, FuncCodeLen, ConstCode::len) vs the reference codeword length for all codes/parameters, all values below 2^16 (2^20 thorough) for core codes, below 2^10 otherwise, every 2^i+-2, every code-specific step point, domain maxima, seeded extras (no codeword-length restriction); (2) streams as in C03: value returned by write_*, growth of the real stream and bit_pos advance of every read variant; non-trivial = value at which the reference length steps, or value > 2^32".into(),
+        assumptions: vec!["reference length = length of the reference codeword (harness/src/model.rs)".into()],
+    };
+    (meta, out)
+}
+
+pub fn replay_len(doc: &serde_json::Value) -> (Vec<String>, bool) {
+    let code: Code = serde_json::from_value(doc["code"].clone()).unwrap();
+    let v = doc["v"].as_u64().unwrap();
+    let r = ref_len(code, v);
+    let mut log = vec![format!("{:?} value {}: reference codeword length {}", code, v, r)];
+    let mut failed = false;
+    match std::panic::catch_unwind(|| lib_lens(code, v)) {
+        Err(p) => {
+            log.push(format!("length function panicked: {}", crate::util::panic_msg(&p)));
+            failed = true;
+        }
+        Ok(ls) => {
+            for (n, l) in ls {
+                let ok = l as u128 == r;
+                failed |= !ok;
+                log.push(format!("  {:<32} = {} {}", n, l, if ok { "ok" } else { "MISMATCH" }));
+            }
+        }
+    }
+    (log, failed)
 }
